@@ -19,6 +19,12 @@ moments of the real filter are compared with the EXACT (rational arithmetic) mom
 with an element-wise allowance derived from eps * (|P| + spread^2) * (number of models) - the combined PREDICTED
 covariance that ``EstPredictRegistration`` publishes as the agent's covariance included.  Every node of the other
 families carries the same rounding-level comparison against the centred float64 mixture.
+A database family (dbinit) runs the library's initialize() END TO END - real in-memory RESONAATE database (previous
+observation, stored estimates), real queries, real Lambert hypotheses on two-body dynamics, real initial pruning of the
+infeasible hypotheses - on a lattice of position jumps / model intervals chosen so that the initial pruning removes
+none, one, several and all but one hypothesis, for both estimators and optical-only, radar-only and mixed detecting
+observations: one probability per surviving hypothesis, probabilities summing to one, Bayes' rule, moment-matched
+output, closure; a library exception on these legal inputs is a violation.
 """
 from __future__ import annotations
 
@@ -100,7 +106,26 @@ RULE = (
     "(different history or configuration). states = distinct (model ids, probabilities to 11 digits, time, flags) "
     "reached, transitions = executed predict+update steps, traces = maximal histories. Where the real "
     "EstimateAgent raises while estimation is still open (recorded finding F-C18-2) the harness repeats the step "
-    "with the filter's ADAPTIVE_ESTIMATION_START flag cleared so that the remaining clauses are still explored."
+    "with the filter's ADAPTIVE_ESTIMATION_START flag cleared so that the remaining clauses are still explored. "
+    "A fourth family (dbinit) is the complete lattice estimator SMM|GPB1 x (model interval, scenario step, gap since "
+    "the previous observation) {(30,60,300), (60,60,600), (60,60,180), (120,120,720)} s [thorough: + (60,60,1200), "
+    "(20,60,240), (120,60,360)] x intended effect of the INITIAL pruning {none, one, several (2 of 4 / 3 of 7 or 11), "
+    "all but one hypothesis removed} (position jump of the detected target = 0.981 km/s x (k + 0.5) x model step, "
+    "resp. 1.3 x 0.981 x gap, in a seed-phased direction; LEO target, ground sites) x detecting observation set "
+    "{o, oo optical only; r radar only; ro, or mixed} [thorough: + rr, oro], SMM prune threshold 1e-20 | 0.05 "
+    "alternating (thorough: both): the real factory + the REAL initialize() with NO seam - real in-memory database "
+    "(agents, epochs, one stored estimate per scenario step, the previous observation), the library's own queries, "
+    "nominal states, Lambert delta-v hypotheses on TwoBody dynamics, hypothesis propagation and _initialPruning (run "
+    "through a pass-through probe that copies its inputs), real UKF models, real az/el(/range/range-rate) "
+    "observations. Checked: initialize() starts and does not raise; number of hypotheses = ceil(gap/step)+1; the "
+    "models created are exactly the hypotheses whose recorded delta-v is <= 0.981 km/s (own norm) and that did not "
+    "hit the Earth; ONE probability / likelihood / mode probability per surviving model = num_models; probabilities "
+    "finite, >= 0, summing to one (1e-12); Bayes' rule from the models' own NIS and innovation covariances with the "
+    "uniform prior over the SURVIVORS (SMM with a range rate: the documented pre-weights); survivors of the first "
+    "update; est_x / est_p / pred_x / pred_p against the exact rational mixture (allowance as in the magnitude "
+    "family); closure decision and the filter handed back; then one more predict + update with the same observation "
+    "set of the propagated truth, same clauses. A dbinit case is non-trivial iff the initial pruning removed >= 1 "
+    "hypothesis (by the oracle's own count) or the library raised."
 )
 ASSUMPTIONS = [
     "numpy dense linear algebra and scipy.stats.chi2 are the reference arithmetic",
@@ -123,6 +148,14 @@ ASSUMPTIONS = [
     "rounding, eps |x| / sigma, is the subject of C06): the reference takes the real models' moments, innovations "
     "and innovation covariances as given and checks only how the adaptive filter combines them; Python's "
     "fractions.Fraction is the exact arithmetic",
+    "dbinit family: nothing of initialize() is replaced. The Lambert targeter, the two-body propagator, the database "
+    "layer and the az/el/range/range-rate measurement functions are the subjects of other properties: the oracle "
+    "takes the delta-v hypotheses handed to _initialPruning (copied by a pass-through probe) and the models' own "
+    "predictions / NIS / innovation covariances as given and checks which hypotheses become models and how the "
+    "adaptive filter weights and combines them; the models' predicted range rates of the SMM pre-weighting come from "
+    "the observation's own measurement function. Earth-impact hypotheses are not enumerated (none of the lattice's "
+    "hypotheses reaches the surface within the gap); the feasibility limit 0.981 km/s is a constant of the library, "
+    "so the required delta-v is varied around it instead (jump / time-to-go)",
     "SMM pre-weighting |1 - e_i/sum(e)| (left unnormalised) is taken as the documented prior of the first update; "
     "with several observations that carry a range rate the LAST one of the list decides (source comment: 'only the "
     "last obs is included'), observations without a range rate are skipped; a measured range rate of exactly zero "
@@ -686,7 +719,22 @@ def bounds(tier, seed):
                                 float(max(MAG_RADII_KM.values())) ** 2 / min(MAG_SIGMAS_KM) ** 2],
             "configurations": len(mag_configs(tier, seed)),
         },
-        "configurations": len(cs) + len(mag_configs(tier, seed)),
+        "database_initialize_family": {
+            "what": "real initialize() over a real in-memory database, no seam; initial pruning by the library",
+            "model_interval_scenario_step_gap_s": DB_TIMINGS if tier == "quick" else DB_TIMINGS_T,
+            "hypotheses_before_pruning": sorted({_db_counts(c)[1] for c in dbinit_configs(tier, seed)}),
+            "intended_initial_pruning": {c: "removes " + {"none": "0", "one": "1", "several": "2 (of 4) / 3 (of 7, 11)",
+                                                          "all_but_one": "all manoeuvre hypotheses"}[c] for c in DB_CLASSES},
+            "position_jump_km": sorted({round(_db_counts(c)[3], 2) for c in dbinit_configs(tier, seed)}),
+            "delta_v_cap_km_s": DB_DV_CAP,
+            "detecting_observation_sets": sorted(DB_OBS_SETS if tier == "quick" else DB_OBS_SETS_T),
+            "observation_noise": {"optical_rad2": DB_R_OPTICAL, "radar_rad2_rad2_km2_km2s2": DB_R_RADAR},
+            "smm_prune_thresholds": [1e-20, 0.05],
+            "steps": "initialize (predict + first update inside), then one predict + update",
+            "configurations": len(dbinit_configs(tier, seed)),
+            "initialize_cases": sum(len(c["sets"]) for c in dbinit_configs(tier, seed)),
+        },
+        "configurations": len(cs) + len(mag_configs(tier, seed)) + len(dbinit_configs(tier, seed)),
         "phase_seed": seed,
     }
 
